@@ -332,4 +332,103 @@ impl FsBackend for SimDisk {
         s.log.str("close");
         s.handles.remove(&handle);
     }
+
+    // ---- path operations (a writer that goes through a temporary file and renames it, removes the old
+    // file first, or opens through OpenOptions is as legitimate as one that calls File::create)
+
+    fn rename(&mut self, from: &str, to: &str) -> Option<io::Result<()>> {
+        let mut s = self.state.borrow_mut();
+        s.total_calls += 1;
+        s.log.str("rename");
+        match s.files.remove(from) {
+            Some(bytes) => {
+                s.files.insert(to.to_string(), bytes);
+                for h in s.handles.values_mut() {
+                    if h.path == from {
+                        h.path = to.to_string();
+                    }
+                }
+                let _ = std::fs::remove_file(to); // a stale real file of that name must not shine through later
+                Some(Ok(()))
+            }
+            None => {
+                // not on the simulated disk: the real file system decides; whatever the simulated disk
+                // holds under the target name is stale from now on
+                s.files.remove(to);
+                None
+            }
+        }
+    }
+
+    fn remove_file(&mut self, path: &str) -> Option<io::Result<()>> {
+        let mut s = self.state.borrow_mut();
+        s.total_calls += 1;
+        s.log.str("remove");
+        if s.files.remove(path).is_some() {
+            let _ = std::fs::remove_file(path);
+            Some(Ok(()))
+        } else {
+            None
+        }
+    }
+
+    fn exists(&mut self, path: &str) -> Option<bool> {
+        let s = self.state.borrow();
+        if s.files.contains_key(path) {
+            Some(true)
+        } else {
+            None
+        }
+    }
+
+    fn open_with(&mut self, path: &str, spec: &ohsl::verif_seam::fs::OpenSpec) -> Option<io::Result<u64>> {
+        let writing = spec.write || spec.append;
+        let mut s = self.state.borrow_mut();
+        s.total_calls += 1;
+        s.log.str(if writing { "create" } else { "open" });
+        s.log.str(path.rsplit('/').next().unwrap_or(path));
+        if writing {
+            s.op_creates += 1;
+            if let Some(a) = s.take(|a| matches!(a.kind, FaultKind::CreateFail(_))) {
+                let idx = s.op_creates - 1;
+                s.op_fired.push((idx, a.kind));
+                s.log.str("!");
+                return Some(Err(os_err(a.kind)));
+            }
+        } else {
+            s.op_opens += 1;
+            if let Some(a) = s.take(|a| matches!(a.kind, FaultKind::OpenFail(_))) {
+                let idx = s.op_opens - 1;
+                s.op_fired.push((idx, a.kind));
+                s.log.str("!");
+                return Some(Err(os_err(a.kind)));
+            }
+        }
+        if !s.files.contains_key(path) {
+            if let Ok(bytes) = std::fs::read(path) {
+                s.files.insert(path.to_string(), bytes); // written earlier by something that bypassed the seam
+            }
+        }
+        let exists = s.files.contains_key(path);
+        if spec.create_new && exists {
+            return Some(Err(io::Error::from_raw_os_error(libc::EEXIST)));
+        }
+        if !exists {
+            if writing && (spec.create || spec.create_new) {
+                s.files.insert(path.to_string(), Vec::new());
+            } else {
+                return Some(Err(io::Error::from_raw_os_error(libc::ENOENT)));
+            }
+        }
+        if writing && spec.truncate {
+            s.files.insert(path.to_string(), Vec::new());
+        }
+        let pos = if spec.append { s.files[path].len() } else { 0 };
+        let h = s.next_handle;
+        s.next_handle += 1;
+        s.handles.insert(h, Handle { path: path.to_string(), pos, writing });
+        let n = s.handles.len();
+        s.open_handles_peak = s.open_handles_peak.max(n);
+        Some(Ok(h))
+    }
 }
